@@ -83,6 +83,33 @@ ZOPE_PROJECTS = [
                    "@implementer(IB)\nclass Sub(Old):\n    pass\nclassImplementsOnly(Sub, IA)\nclassImplementsOnly(Sub, IC)\n"
                    "@implementer(IA)\nclass Twice:\n    pass\nclassImplementsOnly(Twice, IB)\n@implementer(IC)\nclass Twice:\n    'redefined'\n"
                    "@implementer_only(IB)\n@implementer(IA)\nclass Stacked:\n    pass\n"},
+    # an import cycle between the module of the base interface and the module that derives from it, declares implementers and
+    # provides the interface itself - analysed from either end
+    {"zp/__init__.py": "", "zp/ifaces.py": "'The interfaces.'\nimport zp.impl\nfrom zope.interface import Interface\nclass IBase(Interface):\n    'Base.'\n    def load(): 'doc'\n",
+     "zp/impl.py": "'The implementation.'\nfrom zope.interface import classImplements, moduleProvides, implementer\nfrom zp.ifaces import IBase\n"
+                   "class Plugin:\n    def load(self): pass\nclass IPlugin(IBase):\n    'Derived.'\n    def run(): 'doc'\n"
+                   "classImplements(Plugin, IPlugin)\nmoduleProvides(IPlugin)\n@implementer(IPlugin)\nclass Late:\n    pass\n"},
+    {"zp/__init__.py": "", "zp/zifaces.py": "'The interfaces.'\nimport zp.impl\nfrom zope.interface import Interface\nclass IBase(Interface):\n    'Base.'\n    def load(): 'doc'\n",
+     "zp/impl.py": "'The implementation.'\nfrom zope.interface import classImplements, moduleProvides, implementer\nfrom zp.zifaces import IBase\n"
+                   "class Plugin:\n    def load(self): pass\nclass IPlugin(IBase):\n    'Derived.'\n    def run(): 'doc'\n"
+                   "classImplements(Plugin, IPlugin)\nmoduleProvides(IPlugin)\n@implementer(IPlugin)\nclass Late:\n    pass\n"},
+    # definitions and __doc__ assignments in the body of every kind of function: nothing in there is a child of the function
+    {"zp/__init__.py": "", "zp/local.py": "import functools\nfrom typing import overload\n"
+        "def plain():\n    class L: \n        def m(self): pass\n    def inner(): pass\n    inner.__doc__ = 'x'\n    v = 1\n"
+        "async def coro():\n    class L: pass\n    def inner(): pass\n"
+        "def factory(arg):\n    def deco(f):\n        @functools.wraps(f)\n        def wrapper(*a): return f(*a)\n        return wrapper\n    return deco\n"
+        "class Registry:\n    'doc'\n"
+        "    def method(self):\n        class L: pass\n        def inner(): pass\n"
+        "    @classmethod\n    def cm(cls):\n        class L: pass\n        def inner(): pass\n"
+        "    @staticmethod\n    def entry(name):\n        class _Entry:\n            def m(self): pass\n            x = 1\n        def finish(): pass\n        finish.__doc__ = 'y'\n        return _Entry\n"
+        "    @property\n    def prop(self):\n        class L: pass\n        def inner(): pass\n        return L\n"
+        "    @prop.setter\n    def prop(self, v):\n        class L: pass\n"
+        "    def old(x):\n        class L: pass\n        def inner(): pass\n    old = staticmethod(old)\n"
+        "    def oldc(cls):\n        class L: pass\n    oldc = classmethod(oldc)\n"
+        "    @overload\n    def ov(self, a: int) -> int: ...\n    @overload\n    def ov(self, a: str) -> str: ...\n    def ov(self, a):\n        class L: pass\n        def inner(): pass\n"
+        "    @functools.lru_cache()\n    def cached(self):\n        class L: pass\n"
+        "    async def acoro(self):\n        class L: pass\n        def inner(): pass\n"
+        "    class Nested:\n        @staticmethod\n        def deep():\n            class L: pass\n            def inner(): pass\n"},
     # zope things assigned to LOCAL variables (function and method bodies, a function nested in an interface): nothing to document there
     {"zp/__init__.py": "", "zp/core.py": "from zope.interface.interface import InterfaceClass\nfrom zope.interface import Interface, Attribute, implementer\nfrom zope import schema\n"
                                          "class MyInterfaceClass(InterfaceClass):\n    'custom'\nITop = MyInterfaceClass('ITop')\n'a module-level interface'\n"
